@@ -2,7 +2,7 @@ SPECIFICATION TSpec
 CONSTANTS
   PerRequestAllOf = TRUE
   RevalidationNeedsGroup = TRUE
-  StarEntryIsSuffix = TRUE
+  StarEntryIsSuffix = FALSE
 CONSTRAINT Track
 POSTCONDITION Accepted
 CHECK_DEADLOCK FALSE
